@@ -15,6 +15,7 @@ import OFV.Proofs.C09Bk3
 import OFV.Proofs.C09IntMul
 import OFV.Proofs.C09Addr
 import OFV.Proofs.C09Ext4
+import OFV.Proofs.C09Seq
 
 namespace OFV.C09
 open OFV.Model.C09 OFV.Spec.C09
@@ -74,6 +75,17 @@ theorem string_constructor_sound (w : Nat → Bool) (sm : List (List Tok)) (p : 
     (h : ofString sm = .ok p) (hne : ∀ toks ∈ sm, toks ≠ []) :
     evalPoly w p = sm.foldr (fun toks a => xor (summandVal w toks) a) false :=
   ofString_sound' w sm p h hne
+
+/-- `BinaryPolynomial([tuple, …])` (no negative factor; `'one'` factors count as 1, repeated
+factors and repeated summands are handled by `_check_factor` / `binary_sum_rule`): when it
+returns, the polynomial is the XOR over the non-empty summands of the product of their integer
+factors.  (`gsum g l` is the XOR of `g` over `l`.) -/
+theorem tuple_constructor_sound (w : Nat → Bool) (terms : List Mono) (p : Poly)
+    (h : ofSeq false terms = .ok p) :
+    evalPoly w p = gsum (fun t => !t.isEmpty && evalMono w t) terms := ofSeq_sound' w terms p h
+
+example : ofSeq false [[some 2, none, some 1, some 2], [none], [some 7], [some 7], []] = .ok [[some 1, some 2], [none]] := by
+  rfl
 
 example : ofString [[.var 1, .const 1, .var 2], [.const 3], [.var 1, .const 0]] = .ok [[some 1, some 2], [none]] := by
   rfl
